@@ -94,7 +94,7 @@ mod verif_c17 {
         std::mem::forget(it);
     }
 
-    // @harness id=C17 tier=thorough timeout=3400 mem=14
+    // @harness id=C17 tier=deep timeout=3400 mem=14
     // @bounds exhausting an iterator of 0..=1 items finishes the bar exactly according to its finish behaviour (AndLeave: position = length; Abandon: position unchanged) and a further next() changes nothing
     #[kani::proof]
     #[kani::unwind(6)]
@@ -119,7 +119,7 @@ mod verif_c17 {
         std::mem::forget(it);
     }
 
-    // @harness id=C17 tier=thorough timeout=3400 mem=14
+    // @harness id=C17 tier=deep timeout=3400 mem=14
     // @bounds nth(k), k in 0..=3, on an inner iterator of 2 items wrapped in a bar that abandons on exhaustion: same result as the inner iterator's nth, and the position advances by exactly the number of items the inner iterator handed out (also when nth runs past the end)
     #[kani::proof]
     #[kani::unwind(6)]
